@@ -27,11 +27,17 @@ def _prod(shape):
 
 
 class Unk(object):
-    """A boolean (or other) value the analysis cannot determine."""
-    __slots__ = ('why',)
+    """A boolean (or other) value the analysis cannot determine.  `expr` is a structured description:
+    ('cmp', op, a, b) | ('and', x, y) | ('or', x, y) | ('not', x) | ('any', [..]) | ('all', [..]) |
+    ('fn', name, args...) | a plain string."""
+    __slots__ = ('expr',)
 
-    def __init__(self, why=''):
-        self.why = why
+    def __init__(self, expr=''):
+        self.expr = expr
+
+    @property
+    def why(self):
+        return unk_str(self.expr)
 
     def __bool__(self):
         raise AnalysisError('branch on a value the analysis cannot determine: %s' % self.why)
@@ -40,12 +46,49 @@ class Unk(object):
         return 'Unk(%s)' % self.why
 
     def _b(self, o):
-        return Unk('(%s ? %r)' % (self.why, o))
-    __and__ = __rand__ = __or__ = __ror__ = __add__ = __radd__ = __mul__ = __rmul__ = _b
+        return Unk(('op', self.expr, o.expr if isinstance(o, Unk) else o))
+    __and__ = __rand__ = lambda self, o: s_and(self, o)
+    __or__ = __ror__ = lambda self, o: s_or(self, o)
+    __add__ = __radd__ = __mul__ = __rmul__ = _b
     __sub__ = __rsub__ = _b
 
     def __invert__(self):
-        return Unk('~' + self.why)
+        return Unk(('not', self.expr))
+
+    def comparisons(self):
+        """All ('cmp', op, a, b) leaves."""
+        out = []
+
+        def walk(e):
+            if isinstance(e, Unk):
+                walk(e.expr)
+            elif isinstance(e, tuple) and e:
+                if e[0] == 'cmp':
+                    out.append(e)
+                else:
+                    for x in e[1:]:
+                        walk(x)
+            elif isinstance(e, list):
+                for x in e:
+                    walk(x)
+        walk(self.expr)
+        return out
+
+
+def unk_str(e):
+    if isinstance(e, Unk):
+        return unk_str(e.expr)
+    if isinstance(e, tuple) and e:
+        if e[0] == 'cmp':
+            return '%r %s %r' % (e[2], e[1], e[3])
+        if e[0] in ('and', 'or'):
+            return '(%s %s %s)' % (unk_str(e[1]), e[0], unk_str(e[2]))
+        if e[0] == 'not':
+            return 'not %s' % unk_str(e[1])
+        if e[0] in ('any', 'all'):
+            return '%s(%s)' % (e[0], ', '.join(unk_str(x) for x in e[1][:3]))
+        return '%s(%s)' % (e[0], ', '.join(unk_str(x) for x in e[1:]))
+    return str(e)
 
 
 class Arr(object):
@@ -316,7 +359,7 @@ class Arr(object):
                 elif m is False:
                     pass
                 else:
-                    self.buf.data[p] = Choice(m, v, self.buf.data[p])
+                    self.buf.data[p] = mk_choice(m, v, self.buf.data[p])
                 self.buf.writes.append((p, where))
             return
         pos, shape = self._resolve(index)
@@ -533,6 +576,15 @@ class Choice(object):
         return Choice(self.cond, fn(self.a), fn(self.b))
 
 
+def mk_choice(cond, a, b):
+    """cond ? a : b for an undetermined cond; element types may supply their own join (choice_)."""
+    for x in (a, b):
+        h = getattr(type(x), 'choice_', None)
+        if h is not None:
+            return h(cond, a, b)
+    return Choice(cond, a, b)
+
+
 # ---------------------------------------------------------------- scalar kernel
 def _lift_choice(op, a, b):
     if isinstance(a, Choice):
@@ -545,7 +597,7 @@ def _wrap2(pyop, name):
         if isinstance(a, Choice) or isinstance(b, Choice):
             return _lift_choice(f, a, b)
         if isinstance(a, Unk) or isinstance(b, Unk):
-            return Unk('%s(%r,%r)' % (name, a, b))
+            return Unk(('fn', name, a, b))
         try:
             r = pyop(a, b)
         except TypeError:
@@ -582,7 +634,7 @@ def s_mul(a, b):
     if isinstance(a, Unk) or isinstance(b, Unk):
         # bool mask times number: keep as a choice
         m, v = (a, b) if isinstance(a, Unk) else (b, a)
-        return Choice(m, v, 0)
+        return mk_choice(m, v, 0)
     if a is True:
         return b
     if b is True:
@@ -691,7 +743,7 @@ def s_not(a):
     if isinstance(a, bool):
         return not a
     if isinstance(a, Unk):
-        return Unk('not ' + a.why)
+        return Unk(('not', a.expr))
     if isinstance(a, int):
         return ~a
     raise AnalysisError('invert of %r' % (a,))
@@ -706,7 +758,7 @@ def s_and(a, b):
         return a
     if isinstance(a, int) and isinstance(b, int) and not isinstance(a, bool):
         return a & b
-    return Unk('(%r and %r)' % (a, b))
+    return Unk(('and', a.expr if isinstance(a, Unk) else a, b.expr if isinstance(b, Unk) else b))
 
 
 def s_or(a, b):
@@ -718,7 +770,7 @@ def s_or(a, b):
         return a
     if isinstance(a, int) and isinstance(b, int) and not isinstance(a, bool):
         return a | b
-    return Unk('(%r or %r)' % (a, b))
+    return Unk(('or', a.expr if isinstance(a, Unk) else a, b.expr if isinstance(b, Unk) else b))
 
 
 _CMP = {'<': operator.lt, '<=': operator.le, '>': operator.gt, '>=': operator.ge,
@@ -772,8 +824,8 @@ def s_cmp(op, a, b):
                     return op == '=='
             except Exception:
                 pass
-        return Unk('%r %s %r' % (a, op, b))
-    return Unk('%r %s %r' % (a, op, b))
+        return Unk(('cmp', op, a, b))
+    return Unk(('cmp', op, a, b))
 
 
 def _raise_cmp(a, b):
